@@ -99,12 +99,15 @@ Definition end_obs (e : loop_end) : obs :=
 
 Definition nat_eqb_pair (a b : nat * nat) : bool := ((fst a =? fst b) && (snd a =? snd b))%nat.
 
-Definition threads_obs (n m : nat) : obs :=
+Definition threads_obs (n m : nat) (c : caller) : obs :=
   let arr := round_robin n m in
-  let ran := arrivals_run_order arr in
+  let fin := x_deliver (map (fun a => (c, a)) arr) in
+  let ran := arrivals_run_order (x_ran fin) in
   OList [OTag "threads";
          OBool (forallb (fun a => (List.length (filter (nat_eqb_pair a) ran) =? 1)%nat) arr && (List.length ran =? List.length arr)%nat);
-         OBool (forallb (fun t => list_eqb Nat.eqb (of_thread t ran) (of_thread t arr)) (seq 0 n))].
+         OBool (forallb (fun t => list_eqb Nat.eqb (of_thread t ran) (of_thread t arr)) (seq 0 n));
+         (* delivered without any further wake-up: nothing is left in the ready queue of the sleeping loop *)
+         OBool (match x_ready fin with [] => true | _ => false end)].
 
 Definition run_case (c : c38_input) : obs :=
   match c with
@@ -114,7 +117,7 @@ Definition run_case (c : c38_input) : obs :=
   | ISync b timeout =>
       let '(s, e) := run_loop (fuel_for b) (init_sync b timeout) in
       OList [OList [result_obs (sync_result_of s e); fin_obs (fin_of s b)]; OList (map ev_obs (trace_of s))]
-  | IThreads n m => threads_obs n m
+  | IThreads n m c => threads_obs n m c
   end.
 
 (* ------------------------------------------------------------------ *)
@@ -208,6 +211,7 @@ Definition check_case (c : c38_input) (o : obs) : bool :=
       | Some r, Some fs, Some tr => check_sync timeout r fs tr
       | _, _, _ => false
       end
-  | IThreads _ _, OList [OTag t; OBool once; OBool order] => (t =? "threads") && once && order
+  | IThreads _ _ _, OList [OTag t; OBool once; OBool order; OBool delivered] =>
+      (t =? "threads") && once && order && delivered
   | _, _ => false
   end.
